@@ -212,6 +212,9 @@ LONG_STRINGS = ["A" * 48, "B" * 50, "ab" * 30, "x" * 101]
 WORDING_STRINGS = ["to be", "to not be", "to have", "to match", "is", "has", "matches", "to be or not to be", "it has to be",
                    "to be equal to 1", "and to have", " to be", "to be ", "To Be", "not", "to"]
 KEYS = ["a", "b", "k", "foo", 'q"k', ""]
+# keys that contain the separators of the wordings they are written into (a key path is worded `"k1" -> "k2"`, a list `x, y`),
+# quotes, brackets, text that looks like a rendered key / a rendered two-level path
+SEP_KEYS = ["a, b", "a -> b", 'a", "b', 'a" -> "b', "a,b", ", ", " -> ", "[a]", '"a"', "a\\", "1", "a -> b, c"]
 # the other key types json.dumps accepts; "1"/"null"/"true" are what json.dumps turns 1/None/True into (distinct keys for Python)
 SCALAR_KEYS = [None, True, False, ["i", 0], ["i", 1], ["i", 2], ["i", -1], ["i", 10 ** 20], ["f", 3], ["f", -1], ["f", 2], ["f", 20]]
 MIXED_KEYS = KEYS + ["1", "null", "true"] + SCALAR_KEYS
@@ -220,8 +223,11 @@ MIXED_KEYS = KEYS + ["1", "null", "true"] + SCALAR_KEYS
 def gen_keys(rng, n):
     """n (or fewer) dict keys, pairwise distinct for Python (True == 1 == 1.0 is ONE key): 65 % str keys only, else keys of
     mixed types (str, None, bool, int, float)"""
-    if rng.random() < 0.65:
+    r = rng.random()
+    if r < 0.6:
         return rng.sample(KEYS, min(n, len(KEYS)))
+    if r < 0.65:
+        return rng.sample(SEP_KEYS + KEYS[:2], min(n, 4))
     out, seen = [], set()
     for k in rng.sample(MIXED_KEYS, min(n + 2, len(MIXED_KEYS))):
         pk = key_to_py(k)
@@ -267,12 +273,50 @@ def gen_val(rng, depth=2):
     return ["d", [[k, fresh_nans(gen_val(rng, depth - 1))] for k in keys]]
 
 
+def retype(rng, v, p=0.7):
+    """a value that is EQUAL to `v` for Python (`==`) but — with probability p at every number it holds — of another type:
+    bool / int / float of the same numeric value (True ~ 1 ~ 1.0, False ~ 0 ~ 0.0, 3 ~ 3.0), through lists and dict values at
+    any depth, dict entries possibly in another order.  What is printed (`1`, `1.0`, `true`) differs; what `==` says does not."""
+    def num(n2):                       # n2 = the value in halves
+        if n2 % 2:
+            return ["f", n2]
+        if abs(n2) >= 2 * 10 ** 15:    # the float would print in exponent notation (1e+20): outside the modelled renderings
+            return ["i", n2 // 2]
+        opts = [["i", n2 // 2], ["f", n2]] + ([n2 == 2] if n2 in (0, 2) else [])
+        return rng.choice(opts)
+
+    if v is None:
+        return None
+    if isinstance(v, bool):
+        return num(2 * int(v)) if rng.random() < p else v
+    t, x = v
+    if t == "i":
+        return num(2 * x) if rng.random() < p else v
+    if t == "f":
+        return num(x) if rng.random() < p else v
+    if t == "l":
+        return ["l", [fresh_nans(retype(rng, e, p)) for e in x]]
+    if t == "d":
+        items = [[k, fresh_nans(retype(rng, e, p))] for k, e in x]
+        if rng.random() < 0.3:
+            rng.shuffle(items)
+        return ["d", items]
+    return v
+
+
+def has_number(v):
+    if isinstance(v, bool):
+        return True
+    return isinstance(v, list) and len(v) == 2 and (v[0] in ("i", "f") or (v[0] == "l" and any(has_number(e) for e in v[1]))
+                                                      or (v[0] == "d" and any(has_number(e) for _, e in v[1])))
+
+
 def literals_of(e):
     """the Val literals occurring in an expression (used to aim actual values at the matcher)"""
     out = []
     c = e[0]
     if c in ("val", "equal_to", "not_equal_to", "greater_than", "greater_than_or_equal_to", "less_than",
-             "less_than_or_equal_to"):
+             "less_than_or_equal_to", "is_json"):
         out.append(e[1])
     elif c in ("has_items", "has_only_items", "is_in"):
         out.extend(e[1])
@@ -294,8 +338,10 @@ def gen_actual(rng, expr):
     r = rng.random()
     if not lits or r < 0.4:
         return gen_val(rng, 2)
-    if r < 0.7:
+    if r < 0.6:
         return rng.choice(lits)
+    if r < 0.7:
+        return retype(rng, rng.choice(lits))        # equal under ==, other number types (1 / 1.0 / True), at any depth
     if r < 0.85:
         k = rng.choice([1, 2, 3])
         return ["l", [fresh_nans(rng.choice(lits) if rng.random() < 0.8 else gen_scalar(rng)) for _ in range(k)]]
@@ -323,6 +369,8 @@ OVERRIDES = ["to be one", "to have it", "to match the thing", "can do", "to exis
 
 def gen_keypath(rng):
     n = rng.choice([0, 1, 1, 1, 2, 2, 3]) if rng.random() < 0.3 else rng.choice([1, 1, 2])
+    if rng.random() < 0.15:
+        return [rng.choice(SEP_KEYS) if rng.random() < 0.6 else rng.choice(KEYS) for _ in range(n)]
     return [rng.choice(KEYS) if rng.random() < 0.7 else rng.choice([0, 1, -1, 2]) for _ in range(n)]
 
 
